@@ -3,7 +3,10 @@
   per operation.  Imports only model files (no Mathlib), so it links as a `lean_exe`.
 -/
 import MelModel.Proto
+import MelModel.ProtoState
 open Mel Mel.VM Mel.Proto
+
+/-! ### VM-level operations -/
 
 def handleDec (h : String) : String :=
   match bytesOfHex h with
@@ -50,21 +53,258 @@ def handleRun (prog heap orc : String) : String :=
       | some v => s!"ok {valueText v} steps={steps} w={w} le={le} dbg=1"
   | _, _, _ => "bad-op"
 
-def handleLine (line : String) : String :=
-  match line.trimAscii.toString.splitOn " " with
-  | ["dec", h] => handleDec h
-  | ["enc", t] => handleEnc t
-  | ["w", h] => handleW h
-  | ["run", p, h, o] => handleRun p h o
-  | _ => "bad-op"
+def handleFm (m d t : String) : String :=
+  match m.toNat?, d.toInt?, t with
+  | some m, some d, t => s!"ok {moveFeeMultiplier m d (t == "1")}"
+  | _, _, _ => "bad-op"
 
-partial def loop (hIn : IO.FS.Stream) (hOut : IO.FS.Stream) : IO Unit := do
+/-! ### state-level operations -/
+
+structure DWorld where
+  unsealed : List (String × State) := []
+  sealed : List (String × Sealed) := []
+  hdrHashes : List (Header × Hash) := []
+  deriving Inhabited
+
+def lookup {α} (l : List (String × α)) (k : String) : Option α := (l.find? (·.1 == k)).map (·.2)
+
+/-- the environment of one operation: oracle tables plus the Merkle roots supplied for the
+    parent-side (`pr`, content `ps`) and result-side (`cr`) states -/
+def mkEnv (w : DWorld) (o : StateOracles) (ps : Option State) (pr cr : Roots) : Env where
+  vm := o.vm.toOracles
+  liqHash := fun k => match o.liq.find? (·.1 == k) with
+    | some e => e.2
+    | none => ORACLE_MISS
+  fdp := fun h => match o.fdp.find? (·.1 == h) with
+    | some e => e.2
+    | none => ORACLE_MISS ++ h
+  rewardId := fun n => match o.reward.find? (·.1 == n) with
+    | some e => e.2
+    | none => ORACLE_MISS
+  hdrHash := fun h => match w.hdrHashes.find? (fun e => decide (e.1 = h)) with
+    | some e => e.2
+    | none => ORACLE_MISS
+  powOk := fun seed coin d txh =>
+    match o.pow.find? (fun e => e.1 == seed && decide (e.2.1 = coin) && e.2.2.1 == d && e.2.2.2.1 == txh) with
+    | some e => e.2.2.2.2
+    | none => .invalid
+  isGrandfathered := fun h => o.grandfathered.contains h
+  historyRoot := fun h => match ps with
+    | some p => if h.length = p.history.length then pr.hist else cr.hist
+    | none => cr.hist
+  coinsRoot := fun m => match ps with
+    | some p => if decide (m.coins = p.coins.coins ∧ m.counts = p.coins.counts) then pr.coins else cr.coins
+    | none => cr.coins
+  txsRoot := fun _ txs => match ps with
+    | some p => if decide (txs = p.txs) then pr.txs else cr.txs
+    | none => cr.txs
+  poolsRoot := fun m => match ps with
+    | some p => if decide (m = p.pools) then pr.pools else cr.pools
+    | none => cr.pools
+  stakesRoot := fun m => match ps with
+    | some p => if decide (m = p.stakes) then pr.stakes else cr.stakes
+    | none => cr.stakes
+
+def outcomeText {α} (f : α → String) : Outcome α → String
+  | .ok a => s!"ok {f a}"
+  | .reject e => s!"err {e.text}"
+  | .crash _ => "panic"
+
+def parseEntries {α} (f : String → Option α) (s : String) : Option (List α) := parseList ";" f s
+
+def parseCoinEntry (s : String) : Option (CoinID × CoinDataHeight) :=
+  match s.splitOn "=" with
+  | [id, rest] =>
+    match rest.splitOn "@" with
+    | [cd, h] => do
+      let id ← parseCoinID id; let cd ← parseCoinData cd; let h ← h.toNat?
+      some (id, { coinData := cd, height := h })
+    | _ => none
+  | _ => none
+
+def parsePoolEntry (s : String) : Option (PoolKey × PoolState) :=
+  match s.splitOn "=" with
+  | [k, v] =>
+    match v.splitOn ":" with
+    | [l, r, pa, lq] => do
+      let kb ← hexE k
+      -- keys of fabricated pools are always canonical
+      let key ← canonicalPoolKey kb
+      let l ← l.toNat?; let r ← r.toNat?; let pa ← pa.toNat?; let lq ← lq.toNat?
+      some (key, { lefts := l, rights := r, priceAccum := pa, liqs := lq })
+    | _ => none
+  | _ => none
+
+def parseStakeEntry (s : String) : Option (Hash × StakeDoc) :=
+  match s.splitOn "=" with
+  | [k, v] => do let k ← hexE k; let d ← parseStakeDoc v; some (k, d)
+  | _ => none
+
+def parseHistEntry (s : String) : Option (Header × Hash) :=
+  match s.splitOn "@" with
+  | [h, hh] => do let h ← parseHeader h; let hh ← hexE hh; some (h, hh)
+  | _ => none
+
+def handleFab (w : DWorld) (args : List String) : DWorld × String :=
+  match args with
+  | [name, net, height, fp, fm, ds, coins, pools, stakes, hist] =>
+    let r : Option (DWorld × String) := do
+      let net ← net.toNat? >>= NetID.ofNat?
+      let height ← height.toNat?; let fp ← fp.toNat?; let fm ← fm.toNat?; let ds ← ds.toNat?
+      let coins ← parseEntries parseCoinEntry coins
+      let pools ← parseEntries parsePoolEntry pools
+      let stakes ← parseEntries parseStakeEntry stakes
+      let hist ← parseEntries parseHistEntry hist
+      let proto : State := { network := net, height := height, history := [], coins := {}, txs := [], feePool := fp,
+                             feeMultiplier := fm, tips := 0, doscSpeed := ds, pools := [], stakes := [] }
+      let cm := coins.foldl (fun (m : CoinMap) e => m.insertCoin e.1 e.2 proto.tip906) {}
+      let st : State := { proto with
+        history := hist.foldl (fun m e => m.set e.1.height e.1) [],
+        coins := cm,
+        pools := pools.foldl (fun m e => m.set e.1 e.2) [],
+        stakes := stakes.foldl (fun m e => StakeSet.addStake m e.1 e.2) [] }
+      let ss : Sealed := { st := st, action := none }
+      some ({ w with sealed := (name, ss) :: w.sealed, hdrHashes := hist ++ w.hdrHashes }, s!"ok {dumpState st}")
+    r.getD (w, "bad-op")
+  | _ => (w, "bad-op")
+
+def handleGenesis (w : DWorld) (args : List String) : DWorld × String :=
+  match args with
+  | [name, net, coin, fp, fm, stakes] =>
+    let r : Option (DWorld × String) := do
+      let net ← net.toNat? >>= NetID.ofNat?
+      let coin ← parseCoinData coin
+      let fp ← fp.toNat?; let fm ← fm.toNat?
+      let stakes ← parseEntries parseStakeEntry stakes
+      let proto : State := { network := net, height := 0, history := [], coins := {}, txs := [], feePool := fp,
+                             feeMultiplier := fm, tips := 0, doscSpeed := MICRO_CONVERTER, pools := [],
+                             stakes := stakes.foldl (fun m e => StakeSet.addStake m e.1 e.2) [] }
+      let st := { proto with coins := ({} : CoinMap).insertCoin { txhash := zeroHash, index := 0 }
+                                        { coinData := coin, height := 0 } proto.tip906 }
+      some ({ w with unsealed := (name, st) :: w.unsealed }, s!"ok {dumpState st}")
+    r.getD (w, "bad-op")
+  | _ => (w, "bad-op")
+
+def handleNext (w : DWorld) (src dst roots hh : String) : DWorld × String :=
+  match lookup w.sealed src, parseRoots roots, hexE hh with
+  | some ss, some rt, some hh =>
+    let env := mkEnv w {} none rt rt
+    match headerOf env ss with
+    | .ok hdr =>
+      let w1 := { w with hdrHashes := (hdr, hh) :: w.hdrHashes }
+      match nextUnsealed (mkEnv w1 {} none rt rt) ss with
+      | .ok st => ({ w1 with unsealed := (dst, st) :: w1.unsealed }, s!"ok {headerText hdr} {dumpState st}")
+      | _ => (w, "panic")
+    | _ => (w, "panic")
+  | _, _, _ => (w, "bad-op")
+
+def handleBatch (w : DWorld) (src dst lasthdr orc : String) (txs : List String) : DWorld × String :=
+  match lookup w.unsealed src, parseStateOracles orc with
+  | some st, some o =>
+    let txs? : Option (List Tx) := if txs = ["-"] then some [] else txs.mapM parseTx
+    let fallback : Option (Header × DWorld) :=
+      if lasthdr = "-" then some (default, w)
+      else (parseHistEntry lasthdr).map fun e => (e.1, { w with hdrHashes := e :: w.hdrHashes })
+    match txs?, fallback with
+    | some txs, some (fb, w1) =>
+      let env := mkEnv w1 o none {} {}
+      match applyBatch env st txs fb with
+      | .ok st' => ({ w1 with unsealed := (dst, st') :: w1.unsealed }, s!"ok {dumpState st'}")
+      | .reject e => (w1, s!"err {e.text}")
+      | .crash _ => (w1, "panic")
+    | _, _ => (w, "bad-op")
+  | _, _ => (w, "bad-op")
+
+def handleSeal (w : DWorld) (src dst action orc : String) : DWorld × String :=
+  match lookup w.unsealed src, parseAction action, parseStateOracles orc with
+  | some st, some a, some o =>
+    match sealState (mkEnv w o none {} {}) st a with
+    | .ok ss => ({ w with sealed := (dst, ss) :: w.sealed }, s!"ok {actionText ss.action} {dumpState ss.st}")
+    | .reject e => (w, s!"err {e.text}")
+    | .crash _ => (w, "panic")
+  | _, _, _ => (w, "bad-op")
+
+def handleRestore (w : DWorld) (src dst : String) : DWorld × String :=
+  match lookup w.sealed src with
+  | some ss =>
+    match toBlock (mkEnv w {} none {} {}) ss with
+    | .ok blk =>
+      let rs := fromBlock blk ss.st.stakes ss.st.coins ss.st.history ss.st.pools
+      ({ w with sealed := (dst, rs) :: w.sealed }, s!"ok {actionText rs.action} {dumpState rs.st}")
+    | _ => (w, "panic")
+  | none => (w, "bad-op")
+
+def handleBlock (w : DWorld) (src dst proots phash roots hh hdr action orc : String) (txs : List String) :
+    DWorld × String :=
+  match lookup w.sealed src, parseRoots proots, parseRoots roots, parseHeader hdr, parseAction action,
+        parseStateOracles orc with
+  | some ss, some pr, some cr, some bh, some a, some o =>
+    let txs? : Option (List Tx) := if txs = ["-"] then some [] else txs.mapM parseTx
+    match txs? with
+    | some txs =>
+      -- register the parent's header hash so that `previous` can be computed
+      let w1 : DWorld := match hexE phash, headerOf (mkEnv w {} none pr pr) ss with
+        | some ph, .ok ph' => { w with hdrHashes := (ph', ph) :: w.hdrHashes }
+        | _, _ => w
+      let env := mkEnv w1 o (some ss.st) pr cr
+      let blk : Block := { header := bh, transactions := txs, action := a }
+      let _ := hh
+      match applyBlock env ss blk with
+      | .ok ns => ({ w1 with sealed := (dst, ns) :: w1.sealed }, s!"ok {dumpState ns.st}")
+      | .reject e => (w1, s!"err {e.text}")
+      | .crash _ => (w1, "panic")
+    | none => (w, "bad-op")
+  | _, _, _, _, _, _ => (w, "bad-op")
+
+def handleConfirm (w : DWorld) (src roots hh entries : String) : String :=
+  match lookup w.sealed src, parseRoots roots, hexE hh with
+  | some ss, some rt, some hh =>
+    let es : Option (List (Bytes × Bytes × Bool)) := parseList "," (fun e =>
+      match e.splitOn ":" with
+      | [pk, sg, ok] => do let pk ← hexE pk; let sg ← hexE sg; some (pk, sg, ok == "1")
+      | _ => none) entries
+    match es with
+    | some es =>
+      let env0 := mkEnv w {} none rt rt
+      match headerOf env0 ss with
+      | .ok hdr =>
+        let w1 := { w with hdrHashes := (hdr, hh) :: w.hdrHashes }
+        let o : StateOracles := { vm := { sigs := es.map fun e => (e.1, hh, e.2.1, e.2.2) } }
+        match confirm (mkEnv w1 o none rt rt) ss (es.map fun e => (e.1, e.2.1)) with
+        | .ok true => "some"
+        | .ok false => "none"
+        | _ => "panic"
+      | _ => "panic"
+    | none => "bad-op"
+  | _, _, _ => "bad-op"
+
+def handleLine (w : DWorld) (line : String) : DWorld × String :=
+  match line.trimAscii.toString.splitOn " " with
+  | ["dec", h] => (w, handleDec h)
+  | ["enc", t] => (w, handleEnc t)
+  | ["w", h] => (w, handleW h)
+  | ["run", p, h, o] => (w, handleRun p h o)
+  | ["fm", m, d, t] => (w, handleFm m d t)
+  | ["reset"] => ({}, "ok")
+  | "fab" :: args => handleFab w args
+  | "genesis" :: args => handleGenesis w args
+  | ["next", src, dst, roots, hh] => handleNext w src dst roots hh
+  | "batch" :: src :: dst :: lasthdr :: orc :: txs => handleBatch w src dst lasthdr orc txs
+  | ["seal", src, dst, action, orc] => handleSeal w src dst action orc
+  | ["restore", src, dst] => handleRestore w src dst
+  | "block" :: src :: dst :: proots :: phash :: roots :: hh :: hdr :: action :: orc :: txs =>
+    handleBlock w src dst proots phash roots hh hdr action orc txs
+  | ["confirm", src, roots, hh, entries] => (w, handleConfirm w src roots hh entries)
+  | _ => (w, "bad-op")
+
+partial def loop (hIn : IO.FS.Stream) (hOut : IO.FS.Stream) (w : DWorld) : IO Unit := do
   let line ← hIn.getLine
   if line.isEmpty then return ()
-  hOut.putStrLn (handleLine line)
-  loop hIn hOut
+  let (w', out) := handleLine w line
+  hOut.putStrLn out
+  loop hIn hOut w'
 
 def main : IO Unit := do
   let hIn ← IO.getStdin
   let hOut ← IO.getStdout
-  loop hIn hOut
+  loop hIn hOut {}
